@@ -222,6 +222,14 @@ def apply_mutation(t, index, m, H, salt, eolstr, fresh_id):
 
 
 def render(obj, H, indent, eolstr, addws):
+    try:
+        return _render(obj, H, indent, eolstr, addws)
+    except (TypeError, AttributeError, RuntimeError) as ex:
+        # a tree of valid children that the library cannot render: recorded as output that is nothing but junk
+        return "\ue00f raised " + type(ex).__name__
+
+
+def _render(obj, H, indent, eolstr, addws):
     if isinstance(obj, H.TagList):
         if addws:
             return obj.get_html_string(indent, eolstr)
